@@ -335,10 +335,49 @@ func checkString(qf qframe.QFrame, tab hx.Table) string {
 func mutate(t *rapid.T, tab hx.Table) (hx.Table, string, bool) {
 	out := hx.Table{Cols: append([]hx.Col(nil), tab.Cols...)}
 	n := tab.N()
-	kind := rapid.SampledFrom([]string{"cell", "cell", "name", "order", "type", "fewer"}).Draw(t, "mutation")
+	kind := rapid.SampledFrom([]string{"cell", "cell", "name", "order", "type", "fewer", "enum-relabel", "enum-relabel"}).Draw(t, "mutation")
 	ci := rapid.IntRange(0, len(tab.Cols)-1).Draw(t, "mutcol")
 	c := tab.Cols[ci]
 	switch kind {
+	case "enum-relabel":
+		// another value dictionary but the same internal ordinals: every cell changes its
+		// string while its rank stays (declared: rotated list, derived: renamed values)
+		var enums []int
+		for i, x := range tab.Cols {
+			if x.Kind == hx.KEnum {
+				enums = append(enums, i)
+			}
+		}
+		if len(enums) == 0 {
+			return out, "", false
+		}
+		ci = enums[rapid.IntRange(0, len(enums)-1).Draw(t, "enumcol")]
+		c = tab.Cols[ci]
+		m := c.Take(hx.Iota(n))
+		if c.Enum != nil {
+			if len(c.Enum) < 2 {
+				return out, "", false
+			}
+			rot := append(append([]string(nil), c.Enum[1:]...), c.Enum[0])
+			m.Enum = rot
+			for r, p := range c.S {
+				if p != nil {
+					for k, v := range c.Enum {
+						if v == *p {
+							m.S[r] = hx.Sp(rot[k])
+						}
+					}
+				}
+			}
+		} else {
+			for r, p := range c.S {
+				if p != nil {
+					m.S[r] = hx.Sp(*p + "~")
+				}
+			}
+		}
+		out.Cols[ci] = m
+		return out, fmt.Sprintf("enum-relabel %q: same ranks, other strings", c.Name), true
 	case "cell":
 		if n == 0 {
 			return out, "", false
